@@ -40,15 +40,85 @@ class RowChunks:
         return SList(self.nb, lambda b: Arr((sz(b),) + rest, lambda j, *r: a.fn(off(b) + j, *r), a.dtype, "numpy"))
 
 
-def probe_hook(rec, stepvar, critvar):
-    """loop hook: run one generic iteration and record what happened"""
-    def hook(I, s, env):
-        rec["init"] = {stepvar: env.lookup(stepvar), critvar: env.lookup(critvar)}
+class GenericProbe:
+    """name-independent probe of an EM `while` loop (DESIGN Appendix C).
+
+    first mode   -- the first iteration is run from the real entry state of ``fit``;
+    generic mode -- the loop-carried SCALAR state (locals of ``fit`` and fields of ``self``) is replaced at the loop
+                    head by templates inferred from the first iteration and CHECKED for inductiveness afterwards:
+                      counter   c0 + k      (entry value an integer constant c0, value c0 + 1 after one iteration)
+                      criterion L(k)        (holds the M-step's criterion after one iteration)
+                      unchanged             (kept)
+                      anything else         havoc (a fresh symbol; a VC that mentions it is reported undecided)
+                    with k >= 1 completed iterations; arrays of the machine are the generic entry state.
+    No variable or field name of the code under verification is assumed."""
+
+    LNEW = "Lnext"
+
+    def __init__(self):
+        self.mode = "first"
+        self.templates = {}
+        self.rec = {}
+
+    @staticmethod
+    def scalars(env, selfobj):
+        d = {}
+        for n, v in env.local.items():
+            if isinstance(v, (Poly, int, float)) and not isinstance(v, bool):
+                d[("local", n)] = v
+        if isinstance(selfobj, Obj):
+            for n, v in selfobj.fields.items():
+                if isinstance(v, (Poly, int, float)) and not isinstance(v, bool):
+                    d[("field", n)] = v
+        return d
+
+    @staticmethod
+    def same(a, b):
+        if isinstance(a, float) or isinstance(b, float):
+            return isinstance(a, (int, float)) and isinstance(b, (int, float)) and a == b
+        try:
+            return T.equal(P(a), P(b))
+        except Exception:
+            return False
+
+    def infer(self, entry, post):
+        """templates from (state at entry, state after the first iteration)"""
+        tpl = {}
+        for key, v1 in post.items():
+            v0 = entry.get(key)
+            if v0 is not None and self.same(v0, v1):
+                continue
+            if isinstance(v1, Poly) and T.equal(v1, T.sym(self.LNEW)):
+                tpl[key] = ("crit",)
+            elif v0 is not None and not isinstance(v0, float) and P(v0).as_int() is not None and self.same(P(v0) + 1, v1):
+                tpl[key] = ("counter", P(v0).as_int())
+            else:
+                tpl[key] = ("havoc",)
+        return tpl
+
+    def value(self, key, t):
         k = T.sym("k", "int")
-        Lk = T.sym("Lk")
-        env.local[stepvar] = k
-        env.local[critvar] = Lk
-        I.assumed.add(T.cmp_cond("<=", ZERO, k))
+        if t[0] == "counter":
+            return k + t[1]
+        if t[0] == "crit":
+            return T.sym("Lk")
+        return T.sym("hv_%s_%s" % key)
+
+    def __call__(self, I, s, env):
+        rec = self.rec
+        try:
+            selfobj = env.lookup("self")
+        except KeyError:
+            selfobj = None
+        if self.mode == "generic":
+            I.assumed.add(T.cmp_cond("<=", ONE, T.sym("k", "int")))
+            for key, t in self.templates.items():
+                v = self.value(key, t)
+                if key[0] == "local":
+                    env.local[key[1]] = v
+                else:
+                    selfobj.fields[key[1]] = v
+        rec["entry"] = self.scalars(env, selfobj)
         n0 = len(I.path)
         g = I.ev(s.test, env)
         rec["guard"] = g
@@ -67,10 +137,91 @@ def probe_hook(rec, stepvar, critvar):
         except _Continue:
             rec["outcome"] = "continue"
         rec["body_path"] = list(I.path[n1:])
-        rec["post"] = {stepvar: env.lookup(stepvar), critvar: env.lookup(critvar)}
+        rec["post"] = self.scalars(env, selfobj)
         rec["env"] = env
         raise LoopDone()
-    return hook
+
+    def inductive(self, r, F, label, cl, name):
+        """the templates are preserved by one generic iteration"""
+        k = T.sym("k", "int")
+        post, entry = r["post"], r["entry"]
+        for key, t in self.templates.items():
+            if t[0] == "havoc":
+                continue
+            exp = (k + 1 + t[1]) if t[0] == "counter" else T.sym(self.LNEW)
+            got = post.get(key)
+            what = "%s %s" % key
+            if got is None or isinstance(got, float):
+                cl.append(Clause(name, "refuted", "npsym", "%s: loop-carried %s is %r after a generic iteration" % (label, what, got)))
+                continue
+            sub = []
+            V.compare_terms(P(got), exp, F, name, sub)
+            for c in sub:
+                c.detail = "%s: %s after the iteration (%s) %s" % (label, what, "counter + 1" if t[0] == "counter" else "the M-step's criterion", c.detail)
+            cl += sub
+        for key, v0 in entry.items():
+            if key in self.templates:
+                continue
+            v1 = post.get(key)
+            if v1 is None or not self.same(v0, v1):
+                cl.append(Clause(name, "refuted", "npsym", "%s: %s %s changes in a later iteration (%r -> %r) although the first iteration left it unchanged"
+                                 % ((label,) + key + (v0, v1))))
+
+    def havoc_names(self):
+        return ["hv_%s_%s" % key for key, t in self.templates.items() if t[0] == "havoc"]
+
+
+def run_probe(I, probe, thunk, key):
+    """first-iteration paths, template inference, generic-iteration paths"""
+    I.loop_hooks[key] = probe
+    probe.mode = "first"
+    first = I.run_paths(thunk)
+    cont = [r for pc, (kk, r) in first if kk == "ok" and r.get("outcome") == "continue"]
+    if not cont:
+        cont = [r for pc, (kk, r) in first if kk == "ok" and r.get("outcome") == "break"]
+    probe.templates = probe.infer(cont[0]["entry"], cont[0]["post"]) if cont else {}
+    probe.mode = "generic"
+    generic = I.run_paths(thunk) if cont else []
+    return first, generic
+
+
+def predicates(tr, paths):
+    g_true, brk, cont = [], [], []
+    for pc, (kk, r) in paths:
+        if kk != "ok" or "outcome" not in r:
+            continue
+        gp = T.c_and(*r.get("guard_path", [])) if r.get("guard_path") else T.TRUE
+        zg = tr.cond(gp)
+        if r["outcome"] == "exit":
+            continue
+        g_true.append(zg)
+        bp = T.c_and(*r.get("body_path", [])) if r.get("body_path") else T.TRUE
+        zb = tr.cond(bp)
+        (brk if r["outcome"] == "break" else cont).append(z3.And(zg, zb))
+    orz = lambda xs: z3.Or(*xs) if xs else z3.BoolVal(False)
+    return orz(g_true), orz(brk), orz(cont)
+
+
+def combined_predicates(tr, first, generic, kz):
+    """guard / break / continue as functions of the number k >= 0 of completed iterations:
+    the first-iteration predicates at k = 0, the generic ones at k >= 1"""
+    gA, bA, cA = predicates(tr, first)
+    gB, bB, cB = predicates(tr, generic)
+    zero = z3.IntVal(0)
+    sub0 = lambda e: z3.substitute(e, (kz, zero))
+    return (z3.If(kz == 0, sub0(gA), gB), z3.If(kz == 0, sub0(bA), bB), z3.If(kz == 0, sub0(cA), cB))
+
+
+def mentions(paths, names):
+    if not names:
+        return False
+    for pc, (kk, r) in paths:
+        if kk != "ok":
+            continue
+        for c in list(r.get("guard_path", [])) + list(r.get("body_path", [])):
+            if set(names) & set(C(c).syms):
+                return True
+    return False
 
 
 def mk_tr(mapping, F):
@@ -144,10 +295,11 @@ def generic_vcs(prefix, guards, breaks, conts, has_thr, has_max, out, axioms=())
             out.append(Clause("%s.loop.%s" % (prefix, name), status, "z3", detail, witness=wit, secs=dt))
 
 
-NOTES = (("init", "step = 0 before the loop; the criterion variable is not read before the second iteration"),
-         ("body", "one iteration: step' = step + 1; (machine', criterion') = EM(machine, X) identically on the NumPy branch, "
-                  "the Dask branch with shared objects and the Dask branch with isolated (copied) task arguments; "
-                  "guard == (max is None or step < max)"),
+NOTES = (("init", "the loop is reached without an exception from every entry state (fresh or previously fitted machine)"),
+         ("body", "first iteration from the entry state and a generic later iteration (loop-carried scalars generalised by inferred, "
+                  "checked templates: counters c0 + k, criterion carriers L(k)): (machine', criterion') = EM(machine, X) identically on the NumPy "
+                  "branch, the Dask branch with shared objects and the Dask branch with isolated (copied) task arguments; counters advance by one; "
+                  "guard == (max is None or completed iterations < max)"),
          ("preserve", "Inv(k) ∧ guard ∧ ¬break ⇒ Inv(k+1)"),
          ("break-post", "break taken ⇒ k+1 is the least j >= 2 with |(L(j-1)-L(j))/L(j-1)| <= thr, and k+1 <= max"),
          ("exhaust-post", "guard false ⇒ step = max and no earlier iteration met the stopping test"),
@@ -165,129 +317,19 @@ def gmm_fit_loop(prefix, trainer="ml", has_thr=True, has_max=True):
     return res
 
 
-def one_config(prefix, trainer, has_thr, has_max, out):
-    F = G.facts(extra_pos_syms={"t"})
-    F.conds.append(T.cmp_cond("<=", ZERO, T.sym("k", "int")))
-    recs = []
-    variants = [("numpy", False), ("dask", False), ("dask", True)]
-    for kind, isolated in variants:
-        contracts = {"gmm.e_step": G.spec_e_step, "gmm.GMMStats.__iadd__": G.spec_stats_iadd}
-        I = new_interp(contracts)
-        I.isolated = isolated
-        rec = {}
-        I.loop_hooks["gmm.GMMMachine.fit"] = probe_hook(rec, "step", "average_output")
-        Lnext = T.sym("Lnext")
-
-        def m_step_abs(ctx_, statistics, machine):
-            r = G.spec_m_step(ctx_, statistics if not isinstance(statistics, SList) else statistics, machine)
-            rec.setdefault("avg_terms", []).append(r[1])
-            return (r[0], Lnext)
-        I.contracts["gmm.m_step"] = K.as_contract(m_step_abs)
-        ubm = G.mk_gmm(I, "0") if trainer == "map" else None
-        m = G.mk_gmm(I, trainer=trainer, ubm=ubm, update=(True, True, True))
-        if not has_thr:
-            m.fields["convergence_threshold"] = None
-        if not has_max:
-            m.fields["max_fitting_steps"] = None
-        x = G.mk_data(kind=kind)
-        if kind == "dask":
-            x.chunks = RowChunks(G.Nn)
-        fit = K.lookup(I, "gmm.GMMMachine.fit")
-
-        def thunk():
-            try:
-                I.call(fit, [m, x], {})
-            except LoopDone:
-                pass
-            return dict(rec)
-        # every path through one iteration
-        mstates = []
-
-        def thunk2():
-            # fresh machine per path (the body mutates it)
-            nonlocal m
-            ubm2 = G.mk_gmm(I, "0") if trainer == "map" else None
-            m = G.mk_gmm(I, trainer=trainer, ubm=ubm2, update=(True, True, True))
-            if not has_thr:
-                m.fields["convergence_threshold"] = None
-            if not has_max:
-                m.fields["max_fitting_steps"] = None
-            rec.clear()
-            r = thunk()
-            r["machine"] = m
-            return r
-        try:
-            paths = I.run_paths(thunk2)
-        except ModelError as e:
-            out.append(Clause(prefix + ".loop.body", "undecided", "", "%s branch (isolated=%s): %s at %s" % (kind, isolated, e, I.loc)))
-            continue
-        recs.append((kind, isolated, I, paths))
-    if not recs:
-        return
-    k = T.sym("k", "int")
-    # ---- expected transition: EM spec on the whole data
-    for kind, isolated, I, paths in recs:
-        label = "%s%s" % (kind, "/isolated" if isolated else "")
-        for pc, (kk, r) in paths:
-            if kk != "ok":
-                out.append(Clause(prefix + ".loop.body", "refuted", "npsym", "%s: fit raises %s" % (label, r)))
-                continue
-            if "init" not in r:
-                out.append(Clause(prefix + ".loop.body", "undecided", "", "%s: loop not reached" % label))
-                continue
-            ini = r["init"]
-            ok = ini["step"] == 0 and not isinstance(ini["step"], bool)
-            out.append(Clause(prefix + ".loop.init", "discharged" if ok else "refuted", "npsym",
-                              "" if ok else "%s: step starts at %r" % (label, ini["step"])))
-            if r["outcome"] == "exit":
-                continue
-            post = r["post"]
-            cl = []
-            V.compare_terms(P(post["step"]), k + 1, F, prefix + ".loop.body", cl)
-            if not T.equal(P(post["average_output"]), T.sym("Lnext")):
-                cl.append(Clause(prefix + ".loop.body", "refuted", "npsym",
-                                 "%s: criterion after the iteration is %r, not the M-step's average" % (label, post["average_output"])))
-            # machine' == spec EM(machine, whole X)
-            ubm2 = G.mk_gmm(I, "0") if trainer == "map" else None
-            ms = G.mk_gmm(I, trainer=trainer, ubm=ubm2, update=(True, True, True))
-            if not has_thr:
-                ms.fields["convergence_threshold"] = None
-            if not has_max:
-                ms.fields["max_fitting_steps"] = None
-            xs = G.mk_data(kind="numpy")
-            st = G.spec_e_step(None, xs, ms)
-            exp_avg = G.spec_m_step(None, [st], ms)[1]
-            V.compare(r["machine"], ms, F.extend(pc), prefix + ".loop.body.machine", cl)
-            for avg in r.get("avg_terms", []):
-                V.compare_terms(P(avg), P(exp_avg), F, prefix + ".loop.body.criterion", cl)
-            if not r.get("avg_terms"):
-                cl.append(Clause(prefix + ".loop.body", "refuted", "npsym", "%s: m_step not called in the iteration" % label))
-            for c in cl:
-                c.detail = "%s: %s" % (label, c.detail)
-                c.name = prefix + ".loop.body"
-            out += cl
-    # ---- predicates for the VCs from the NumPy branch (all branches must agree on them)
+def finish_vcs(prefix, recs, F, has_thr, has_max, out, guard_note):
+    """common tail: predicates of every variant agree; guard == spec guard; invariant VCs"""
     kz, Lf = z3.Int("s_k"), z3.Function("L", z3.IntSort(), z3.RealSort())
-    mapping = {"k": (kz, "int"), "Lk": (Lf(kz), "real"), "Lnext": (Lf(kz + 1), "real")}
-    sigs = []
+    mapping = {"k": (kz, "int"), "Lk": (Lf(kz), "real"), GenericProbe.LNEW: (Lf(kz + 1), "real"),
+               "max_steps": (z3.Int("s_max_steps"), "int"), "conv_thr": (z3.Real("s_conv_thr"), "real")}
     tr = mk_tr(mapping, F)
-    for kind, isolated, I, paths in recs:
-        g_true, brk, cont, axioms = [], [], [], tr.axioms
-        for pc, (kk, r) in paths:
-            if kk != "ok" or "outcome" not in r:
-                continue
-            gp = T.c_and(*r.get("guard_path", [])) if r.get("guard_path") else T.TRUE
-            zg = tr.cond(gp)
-            if r["outcome"] == "exit":
-                continue
-            g_true.append(zg)
-            bp = T.c_and(*r.get("body_path", [])) if r.get("body_path") else T.TRUE
-            zb = tr.cond(bp)
-            (brk if r["outcome"] == "break" else cont).append(z3.And(zg, zb))
-        guard = z3.Or(*g_true) if g_true else z3.BoolVal(False)
-        sigs.append((kind, isolated, guard, z3.Or(*brk) if brk else z3.BoolVal(False), z3.Or(*cont) if cont else z3.BoolVal(False), axioms))
-    kind, isolated, guard, brk, cont, axioms = sigs[0]
-    # guard == spec guard
+    sigs = []
+    for kind, isolated, I, probe, first, generic in recs:
+        sigs.append((kind, isolated) + combined_predicates(tr, first, generic, kz))
+        if mentions(generic, probe.havoc_names()):
+            out.append(Clause(prefix + ".loop.body", "undecided", "", "%s: the stopping behaviour depends on a loop-carried variable that none of the invariant "
+                              "templates (counter, criterion, unchanged) captures: %s" % (kind, probe.havoc_names())))
+    kind, isolated, guard, brk, cont = sigs[0]
     M = z3.Int("s_max_steps")
     spec_guard = (kz < M) if has_max else z3.BoolVal(True)
     s = z3.Solver()
@@ -296,8 +338,8 @@ def one_config(prefix, trainer, has_thr, has_max, out):
     s.add(kz >= 0, z3.Not(guard == spec_guard))
     r = s.check()
     out.append(Clause(prefix + ".loop.body", "discharged" if r == z3.unsat else "refuted", "z3",
-                      "guard == (max is None or step < max)" + ("" if r == z3.unsat else " FAILS: model %s" % s.model())))
-    for kind2, iso2, g2, b2, c2, ax2 in sigs[1:]:
+                      guard_note + ("" if r == z3.unsat else " FAILS: model %s" % s.model())))
+    for kind2, iso2, g2, b2, c2 in sigs[1:]:
         s = z3.Solver()
         for ax in tr.axioms:
             s.add(ax)
@@ -308,19 +350,115 @@ def one_config(prefix, trainer, has_thr, has_max, out):
     generic_vcs(prefix, guard, brk, cont, has_thr, has_max, out, axioms=list(tr.axioms))
 
 
+def first_iteration_clauses(prefix, label, first, out):
+    """the loop is reached, nothing raises, and every entered first iteration runs the M-step"""
+    for pc, (kk, r) in first:
+        if kk != "ok":
+            out.append(Clause(prefix + ".loop.body", "refuted", "npsym", "%s: fit raises %s" % (label, r)))
+        elif "entry" not in r:
+            out.append(Clause(prefix + ".loop.body", "undecided", "", "%s: loop not reached" % label))
+        else:
+            out.append(Clause(prefix + ".loop.init", "discharged", "npsym", ""))
+
+
+def one_config(prefix, trainer, has_thr, has_max, out):
+    F = G.facts(extra_pos_syms={"t"})
+    F.conds.append(T.cmp_cond("<=", ZERO, T.sym("k", "int")))
+    recs = []
+    variants = [("numpy", False), ("dask", False), ("dask", True)]
+    for kind, isolated in variants:
+        contracts = {"gmm.e_step": G.spec_e_step, "gmm.GMMStats.__iadd__": G.spec_stats_iadd}
+        I = new_interp(contracts)
+        I.isolated = isolated
+        probe = GenericProbe()
+        rec = probe.rec
+        Lnext = T.sym(GenericProbe.LNEW)
+
+        def m_step_abs(ctx_, statistics, machine, rec=rec):
+            r = G.spec_m_step(ctx_, statistics if not isinstance(statistics, SList) else statistics, machine)
+            rec.setdefault("avg_terms", []).append(r[1])
+            return (r[0], Lnext)
+        I.contracts["gmm.m_step"] = K.as_contract(m_step_abs)
+        fit = K.lookup(I, "gmm.GMMMachine.fit")
+
+        def mk_machine(I=I):
+            ubm2 = G.mk_gmm(I, "0") if trainer == "map" else None
+            m = G.mk_gmm(I, trainer=trainer, ubm=ubm2, update=(True, True, True))
+            if not has_thr:
+                m.fields["convergence_threshold"] = None
+            if not has_max:
+                m.fields["max_fitting_steps"] = None
+            return m
+
+        def thunk(I=I, rec=rec, kind=kind, fit=fit, mk_machine=mk_machine):
+            m = mk_machine()          # fresh machine per path (the body mutates it)
+            x = G.mk_data(kind=kind)
+            if kind == "dask":
+                x.chunks = RowChunks(G.Nn)
+            rec.clear()
+            try:
+                I.call(fit, [m, x], {})
+            except LoopDone:
+                pass
+            r = dict(rec)
+            r["machine"] = m
+            return r
+        try:
+            first, generic = run_probe(I, probe, thunk, "gmm.GMMMachine.fit")
+        except ModelError as e:
+            out.append(Clause(prefix + ".loop.body", "undecided", "", "%s branch (isolated=%s): %s at %s" % (kind, isolated, e, I.loc)))
+            continue
+        recs.append((kind, isolated, I, probe, first, generic, mk_machine))
+    if not recs:
+        return
+    # ---- expected transition: EM spec on the whole data (first iteration from the entry state and the generic one)
+    for kind, isolated, I, probe, first, generic, mk_machine in recs:
+        label = "%s%s" % (kind, "/isolated" if isolated else "")
+        first_iteration_clauses(prefix, label, first, out)
+        for phase, paths in (("first", first), ("generic", generic)):
+            for pc, (kk, r) in paths:
+                if kk != "ok":
+                    if phase == "generic":
+                        out.append(Clause(prefix + ".loop.body", "refuted", "npsym", "%s: fit raises %s" % (label, r)))
+                    continue
+                if r.get("outcome") in (None, "exit"):
+                    continue
+                cl = []
+                if phase == "generic":
+                    probe.inductive(r, F.extend(pc), label, cl, prefix + ".loop.body")
+                # machine' == spec EM(machine, whole X)
+                ms = mk_machine()
+                xs = G.mk_data(kind="numpy")
+                st = G.spec_e_step(None, xs, ms)
+                exp_avg = G.spec_m_step(None, [st], ms)[1]
+                for key, t in (probe.templates.items() if phase == "generic" else ()):
+                    # scalar fields of the machine replaced by templates at the loop head are compared through `inductive`
+                    if key[0] == "field":
+                        ms.fields[key[1]] = r["machine"].fields.get(key[1])
+                V.compare(r["machine"], ms, F.extend(pc), prefix + ".loop.body.machine", cl)
+                for avg in r.get("avg_terms", []):
+                    V.compare_terms(P(avg), P(exp_avg), F, prefix + ".loop.body.criterion", cl)
+                if not r.get("avg_terms"):
+                    cl.append(Clause(prefix + ".loop.body", "refuted", "npsym", "%s: m_step not called in the iteration" % label))
+                for c in cl:
+                    c.detail = "%s (%s iteration): %s" % (label, phase, c.detail)
+                    c.name = prefix + ".loop.body"
+                out += cl
+    finish_vcs(prefix, [r[:6] for r in recs], F, has_thr, has_max, out, "guard == (max is None or completed iterations < max)")
+
+
 def kmeans_fit_loop(prefix, has_thr=True, has_max=True):
     from contracts import kmeans as KM
     sub = []
     F = KM.facts()
     F.conds.append(T.cmp_cond("<=", ZERO, T.sym("k", "int")))
-    k = T.sym("k", "int")
     recs = []
     for kind, isolated in (("numpy", False), ("dask", False), ("dask", True)):
         I = new_interp({"kmeans.e_step": KM.spec_e_step})
         I.isolated = isolated
-        rec = {}
-        I.loop_hooks["kmeans.KMeansMachine.fit"] = probe_hook(rec, "step", "distance")
-        Lnext = T.sym("Lnext")
+        probe = GenericProbe()
+        rec = probe.rec
+        Lnext = T.sym(GenericProbe.LNEW)
 
         def m_step_abs(ctx_, stats, n_samples, rec=rec):
             r = KM.spec_m_step(ctx_, stats, n_samples)
@@ -333,10 +471,12 @@ def kmeans_fit_loop(prefix, has_thr=True, has_max=True):
             self.fields["centroids_"] = KM.mk_means()
         I.contracts["kmeans.KMeansMachine.initialize"] = K.as_contract(init_abs)
         fit = K.lookup(I, "kmeans.KMeansMachine.fit")
-        holder = {}
 
-        def thunk(I=I, rec=rec, kind=kind, holder=holder):
+        def thunk(I=I, rec=rec, kind=kind, fit=fit):
             m = KM.mk_kmeans(I, centroids=False)
+            # a machine that may have been fitted before: the criterion it reports is an arbitrary value (possibly inf)
+            T.EXTENDED.add("amd0")
+            m.fields["average_min_distance"] = T.sym("amd0")
             if not has_thr:
                 m.fields["convergence_threshold"] = None
             if not has_max:
@@ -353,87 +493,44 @@ def kmeans_fit_loop(prefix, has_thr=True, has_max=True):
             r["machine"] = m
             return r
         try:
-            paths = I.run_paths(thunk)
+            first, generic = run_probe(I, probe, thunk, "kmeans.KMeansMachine.fit")
         except ModelError as e:
             sub.append(Clause(prefix + ".loop.body", "undecided", "", "%s branch (isolated=%s): %s at %s" % (kind, isolated, e, I.loc)))
             continue
-        recs.append((kind, isolated, I, paths))
-    for kind, isolated, I, paths in recs:
+        recs.append((kind, isolated, I, probe, first, generic))
+    for kind, isolated, I, probe, first, generic in recs:
         label = "%s%s" % (kind, "/isolated" if isolated else "")
-        for pc, (kk, r) in paths:
-            if kk != "ok":
-                sub.append(Clause(prefix + ".loop.body", "refuted", "npsym", "%s: fit raises %s" % (label, r)))
-                continue
-            if "init" not in r:
-                sub.append(Clause(prefix + ".loop.body", "undecided", "", "%s: loop not reached" % label))
-                continue
-            ini = r["init"]
-            ok = ini["step"] == 0 and not isinstance(ini["step"], bool)
-            sub.append(Clause(prefix + ".loop.init", "discharged" if ok else "refuted", "npsym", "" if ok else "%s: step starts at %r" % (label, ini["step"])))
-            if r["outcome"] == "exit":
-                continue
-            post = r["post"]
-            cl = []
-            V.compare_terms(P(post["step"]), k + 1, F, prefix + ".loop.body", cl)
-            if not T.equal(P(post["distance"]), T.sym("Lnext")):
-                cl.append(Clause(prefix + ".loop.body", "refuted", "npsym", "%s: criterion variable after the iteration is %r, not the M-step's" % (label, post["distance"])))
-            m = r["machine"]
-            amd = m.fields.get("average_min_distance")
-            if not (isinstance(amd, Poly) and T.equal(amd, T.sym("Lnext"))):
-                cl.append(Clause(prefix + ".loop.body", "refuted", "npsym", "%s: reported average_min_distance is %r, not the M-step's criterion" % (label, amd)))
-            xs, mu = KM.mk_data(), KM.mk_means()
-            exp_means, exp_crit = KM.spec_m_step(None, [KM.spec_e_step(None, xs, mu)], KM.Nn)
-            V.compare(m.fields["centroids_"], exp_means, F.extend(pc), prefix + ".loop.body.centroids", cl)
-            for avg in r.get("avg_terms", []):
-                V.compare_terms(P(avg), P(exp_crit), F, prefix + ".loop.body.criterion", cl)
-            for ns in r.get("n_samples", []):
-                V.compare_terms(P(ns), KM.Nn, F, prefix + ".loop.body.n_samples", cl)
-            if not r.get("avg_terms"):
-                cl.append(Clause(prefix + ".loop.body", "refuted", "npsym", "%s: m_step not called" % label))
-            for c in cl:
-                c.detail = "%s: %s" % (label, c.detail)
-                c.name = prefix + ".loop.body"
-            sub += cl
-    if recs:
-        kz, Lf = z3.Int("s_k"), z3.Function("L", z3.IntSort(), z3.RealSort())
-        mapping = {"k": (kz, "int"), "Lk": (Lf(kz), "real"), "Lnext": (Lf(kz + 1), "real"),
-                   "max_steps": (z3.Int("s_max_steps"), "int"), "conv_thr": (z3.Real("s_conv_thr"), "real")}
-        tr = mk_tr(mapping, F)
-        sigs = []
-        for kind, isolated, I, paths in recs:
-            g_true, brk, cont = [], [], []
+        first_iteration_clauses(prefix, label, first, sub)
+        for phase, paths in (("first", first), ("generic", generic)):
             for pc, (kk, r) in paths:
-                if kk != "ok" or "outcome" not in r:
+                if kk != "ok":
+                    if phase == "generic":
+                        sub.append(Clause(prefix + ".loop.body", "refuted", "npsym", "%s: fit raises %s" % (label, r)))
                     continue
-                gp = T.c_and(*r.get("guard_path", [])) if r.get("guard_path") else T.TRUE
-                zg = tr.cond(gp)
-                if r["outcome"] == "exit":
+                if r.get("outcome") in (None, "exit"):
                     continue
-                g_true.append(zg)
-                bp = T.c_and(*r.get("body_path", [])) if r.get("body_path") else T.TRUE
-                zb = tr.cond(bp)
-                (brk if r["outcome"] == "break" else cont).append(z3.And(zg, zb))
-            sigs.append((kind, isolated, z3.Or(*g_true) if g_true else z3.BoolVal(False),
-                         z3.Or(*brk) if brk else z3.BoolVal(False), z3.Or(*cont) if cont else z3.BoolVal(False)))
-        kind, isolated, guard, brk, cont = sigs[0]
-        M = z3.Int("s_max_steps")
-        spec_guard = (kz < M) if has_max else z3.BoolVal(True)
-        s = z3.Solver()
-        for ax in tr.axioms:
-            s.add(ax)
-        s.add(kz >= 0, z3.Not(guard == spec_guard))
-        r = s.check()
-        sub.append(Clause(prefix + ".loop.body", "discharged" if r == z3.unsat else "refuted", "z3",
-                          "guard == (max_iter is None or step < max_iter)" + ("" if r == z3.unsat else " FAILS: model %s" % s.model())))
-        for kind2, iso2, g2, b2, c2 in sigs[1:]:
-            s = z3.Solver()
-            for ax in tr.axioms:
-                s.add(ax)
-            s.add(kz >= 0, z3.Not(z3.And(g2 == guard, b2 == brk, c2 == cont)))
-            r = s.check()
-            sub.append(Clause(prefix + ".loop.body", "discharged" if r == z3.unsat else "refuted", "z3",
-                              "stopping behaviour of the %s%s branch equals the NumPy branch" % (kind2, "/isolated" if iso2 else "")))
-        generic_vcs(prefix, guard, brk, cont, has_thr, has_max, sub, axioms=list(tr.axioms))
+                cl = []
+                if phase == "generic":
+                    probe.inductive(r, F.extend(pc), label, cl, prefix + ".loop.body")
+                m = r["machine"]
+                amd = m.fields.get("average_min_distance")
+                if not (isinstance(amd, Poly) and T.equal(amd, T.sym(GenericProbe.LNEW))):
+                    cl.append(Clause(prefix + ".loop.body", "refuted", "npsym", "%s: reported average_min_distance is %r, not the M-step's criterion" % (label, amd)))
+                xs, mu = KM.mk_data(), KM.mk_means()
+                exp_means, exp_crit = KM.spec_m_step(None, [KM.spec_e_step(None, xs, mu)], KM.Nn)
+                V.compare(m.fields["centroids_"], exp_means, F.extend(pc), prefix + ".loop.body.centroids", cl)
+                for avg in r.get("avg_terms", []):
+                    V.compare_terms(P(avg), P(exp_crit), F, prefix + ".loop.body.criterion", cl)
+                for ns in r.get("n_samples", []):
+                    V.compare_terms(P(ns), KM.Nn, F, prefix + ".loop.body.n_samples", cl)
+                if not r.get("avg_terms"):
+                    cl.append(Clause(prefix + ".loop.body", "refuted", "npsym", "%s: m_step not called" % label))
+                for c in cl:
+                    c.detail = "%s (%s iteration): %s" % (label, phase, c.detail)
+                    c.name = prefix + ".loop.body"
+                sub += cl
+    if recs:
+        finish_vcs(prefix, recs, F, has_thr, has_max, sub, "guard == (max_iter is None or completed iterations < max_iter)")
     tag = "[thr=%s,max=%s]" % ("set" if has_thr else "None", "set" if has_max else "None")
     res = []
     for nm, note in NOTES:
